@@ -630,6 +630,11 @@ class Body:
             "indirect": "fnop" in t,
             "fnop": self.operand_term(t["fnop"], stack) if "fnop" in t else None,
         })
+        if info["decl"] == "core::iter::traits::collect::FromIterator::from_iter" and len(args) == 1:
+            # `Vec::from_iter(it)` is `it.into_iter().collect::<Vec<_>>()` (collect is defined as that call): one spelling for the rules
+            info["name"] = info["decl"] = "core::iter::traits::iterator::Iterator::collect"
+            info["method"] = "collect"
+            info["from_iter"] = True
         tv = self.prog.trivial_wrapper(t.get("resolved") or t.get("callee"))
         if tv is not None and len(tv[0]) == len(args):
             # `fn index_to_id(i: usize) -> u32 { i as u32 }`: a crate-local function whose whole body is a cast / a copy of one parameter is that cast
